@@ -1,0 +1,15 @@
+//go:build !verif
+
+// Package verifhook provides build-tag guarded instrumentation points used by
+// the external verification harness. With the `verif` tag off every call is an
+// empty function.
+package verifhook
+
+// Enabled reports whether the hooks are compiled in.
+const Enabled = false
+
+// Set is a no-op without the verif build tag.
+func Set(func(point string, kv ...interface{})) {}
+
+// At is a no-op without the verif build tag.
+func At(string, ...interface{}) {}
